@@ -8,7 +8,7 @@
 EXTENDS OrbiterProps, Inputs
 CONSTANT MaxDepth
 
-Dns == {"RET", "SRCNATIVE", "OTHERCH", "SIBLING", "NOBLESIDE", "OTHERPORT", "MULTI", "RETRET", "OTHERRET"}
+Dns == {"RET", "SRCNATIVE", "OTHERCH", "SIBLING", "NOBLESIDE", "SRCPORT", "RETPORT", "OTHERPORT", "MULTI", "RETRET", "OTHERRET"}
 Bases == {"uusdc", "ustake", "ufoo"}
 AmtCs == {"OK", "PLUS", "LEADZERO", "SPACE", "FRAC", "NEG", "EMPTY", "EXP", "MAX256", "OVER256", "HEX", "UNDERSCORE"}
 Grid == { [Xfer(c, b, a, FwINT("U"), acts) EXCEPT !.dn = dn, !.amtc = ac] :
